@@ -78,7 +78,9 @@ func (c Comment) String() string {
 	if c.Text != "" {
 		return "# " + strings.TrimSpace(c.Text) + "\n"
 	}
-	return ""
+	// An empty comment line still separates what is above it from what is below it:
+	// dropping it would turn the comment above into the docstring of a task below
+	return "#\n"
 }
 
 // Literal returns the go literal version of the comment e.g. "# This is a comment".
@@ -194,7 +196,9 @@ func (t Task) String() string {
 		}
 	}
 
-	s.WriteString(t.Docstring.String())
+	if t.Docstring.Text != "" {
+		s.WriteString(t.Docstring.String())
+	}
 
 	s.WriteString("task ")
 	s.WriteString(t.Name.String())
